@@ -706,7 +706,12 @@ class RemoteError(Exception):
     def warn(self) -> None:
         if self.formatted != INTERRUPT_TEXT:
             # XXX do this better
-            sys.stderr.write(f"[{os.getpid()}] Warning: unhandled {self!r}\n")
+            try:
+                sys.stderr.write(f"[{os.getpid()}] Warning: unhandled {self!r}\n")
+            except Exception:
+                # called from the receiver thread: a closed or missing
+                # stderr must not end receiving
+                pass
 
 
 class TimeoutError(IOError):
